@@ -3,7 +3,10 @@ import itertools, math, struct
 from ..common import f2h
 
 SPECIAL = [0.0, -0.0, 5e-324, -5e-324, 2.2250738585072014e-308, 1e300, -1e300, 1e-300, float("inf"), float("-inf"),
-           float("nan"), 1.7976931348623157e308, 0.1, 1 / 3, 123456789.125, -2.5]
+           float("nan"), 1.7976931348623157e308, 0.1, 1 / 3, 123456789.125, -2.5] + \
+          [struct.unpack("<d", struct.pack("<Q", b_))[0] for b_ in
+           # NaNs with payloads: R's NA_real_ (signalling, payload 1954) and its quieted form, a quiet NaN with payload 1, the negative quiet NaN
+           (0x7FF00000000007A2, 0x7FF80000000007A2, 0x7FF8000000000001, 0xFFF8000000000000)]
 
 
 def random_shape(rng, min_axes=1, max_axes=4, max_len=7, min_len=1, unequal=False):
@@ -41,6 +44,13 @@ def values(rng, n, kind):
             vals[rng.randrange(n)] = struct.unpack("<d", b)[0]
         vals[-1] = struct.unpack("<d", bytes(rng.randrange(256) for _ in range(7)) + bytes([rng.choice(tops)]))[0]
         return vals
+    if kind == "extreme":
+        # ONE entry near the top of the f64 range (often in a monomorphic corner, where invariant sites pile up) next to ordinary or very
+        # small ones: every target cell that the huge entry does not feed must still come out right
+        tiny = rng.choice([1.0, 1.0, 1e-10, 1e-20])
+        out = [rng.uniform(0.5, 50) * tiny for _ in range(n)]
+        out[rng.choice([0, 0, n - 1, rng.randrange(n)])] = math.ldexp(rng.uniform(0.5, 1), rng.choice([1023, 1023, 1020, 1010, 1000]))
+        return out
     if kind == "special":
         return [rng.choice(SPECIAL) if rng.random() < 0.5 else rng.uniform(-10, 10) for _ in range(n)]
     raise ValueError(kind)
